@@ -1,5 +1,63 @@
-(* C13 placeholder while the proofs are being built: obligations on facts only *)
-From Coq Require Import ZArith List Bool.
-Require Import EV.gen.Facts.
-Lemma C13_cfg_ok_tmp : loader_reads_exact = true /\ loader_errors_typed = true.
+(* C13 -- Loading untrusted bytes is total, typed-error-only and side-effect free.
+   Property statements only; proofs are in proofs/CodecP*.v. *)
+From Coq Require Import ZArith List Bool Lia.
+Import ListNotations.
+Require Import EV.model.Cfg EV.model.Value EV.model.CodecSpec EV.model.Ser EV.model.Unser.
+Require Import EV.proofs.CodecP2 EV.proofs.CodecP3 EV.proofs.CodecP4 EV.proofs.CodecP5 EV.gen.Facts.
+Open Scope Z_scope.
+
+(* facts of the current source: exact reads (EOFError on short data, LoadError on a negative
+   length) and every other exception of an opcode loader converted into LoadError *)
+Definition cfg_ok_C13 : Prop := loader_reads_exact = true /\ loader_errors_typed = true.
+Lemma C13_cfg_ok : cfg_ok_C13.
 Proof. split; reflexivity. Qed.
+
+(* totality: loads is a total function of the bytes (it is a Coq function), and the fuel it runs
+   on, |bytes|+1, is never what stops it: any larger fuel gives the same result *)
+Theorem C13_total : forall ma sc fac f1 f2 bs st, (length bs < f1)%nat -> (length bs < f2)%nat ->
+  run ma sc fac f1 bs st = run ma sc fac f2 bs st.
+Proof. exact run_fuel. Qed.
+Print Assumptions C13_total.
+
+(* for EVERY byte string, every coercion setting and allocation bound: a value, or LoadError
+   (DataFormatError), or EOFError, or the separately tracked memory demand -- never anything else *)
+Theorem C13_typed : forall ma sc bs,
+  match loads ma sc bs with
+  | Ok v => cleanb v = true          (* only supported builtin types, no channel object *)
+  | Err e => e = LoadError \/ e = EOFError \/ e = MemoryDemand
+  end.
+Proof.
+  intros ma sc bs. unfold loads, loads_r.
+  destruct bs as [|ver r]; [left; reflexivity|].
+  destruct (ver =? VERSION); [|left; reflexivity]. unfold load_internal.
+  destruct (run ma sc false (S (length r)) r []) as [[v rest]|e] eqn:E.
+  - eapply run_clean; [|exact E]. reflexivity.
+  - eapply run_typed; exact E.
+Qed.
+Print Assumptions C13_typed.
+
+(* no strict prefix of a valid dump loads successfully *)
+Theorem C13_prefix : forall ma sc v d p q,
+  py3str_as_py2str sc = false -> 2147483647 <= ma ->
+  wfb false v = true -> dumps true v = Ok d -> d = p ++ q -> q <> [] ->
+  forall x, loads_r ma sc p <> Ok x.
+Proof. intros ma sc v d p q Hsc Hma. exact (prefix_never_loads ma sc Hsc Hma v d p q). Qed.
+Print Assumptions C13_prefix.
+
+(* trailing bytes never change the result of a successful load (determinism of the machine) *)
+Theorem C13_extension : forall ma sc fac f bs st v r q,
+  run ma sc fac f bs st = Ok (v, r) -> run ma sc fac f (bs ++ q) st = Ok (v, r ++ q).
+Proof. exact run_ext. Qed.
+Print Assumptions C13_extension.
+
+(* non-vacuity: hostile streams of each outcome class *)
+Example C13_examples :
+  let sc := {| py2str_as_py3str := false; py3str_as_py2str := false |} in
+  loads 1048576 sc [2; 70; 0] = Err EOFError /\                                  (* short int field *)
+  loads 1048576 sc [2; 72; 0; 0; 0; 1; 97; 81] = Err LoadError /\                (* int("a") *)
+  loads 1048576 sc [2; 66; 0; 0; 0; 1; 81] = Err LoadError /\                    (* CHANNEL without a gateway *)
+  loads 1048576 sc [2; 65; 255; 255; 255; 251; 81] = Err LoadError /\            (* negative length *)
+  loads 1048576 sc [2; 75; 127; 255; 255; 255] = Err MemoryDemand /\             (* NEWLIST 2^31-1 *)
+  loads 1048576 sc [2; 76; 76; 64; 255; 255; 255; 255; 64; 0; 0; 0; 2; 81] = Ok (VTuple [VNone; VTuple [VNone]]) /\ (* BUILDTUPLE -1 takes stack[1:] *)
+  loads 1048576 sc [3; 76; 81] = Err LoadError.                                  (* foreign version byte *)
+Proof. vm_compute. repeat split; reflexivity. Qed.
